@@ -86,6 +86,9 @@ func fq(tok string) string {
 	if tok[0] == 'q' {
 		return "v" + tok[1:] + ".qz.test." // an owner of the NSEC3-signed proof zone
 	}
+	if tok[0] == 'x' {
+		return "w" + tok[1:] + "m.pz.test." // a name that does not exist: inside the NSEC span w<i> -> w<i>z
+	}
 	return tok + ".z.test."
 }
 
@@ -275,6 +278,7 @@ type orec struct {
 	negTTL    int64 // kind d: min(SOA TTL, SOA minimum) of the denial, -1 otherwise
 	lastShown int64
 	mark      int
+	holds     map[string]bool // the pieces whose records the stored reply carried at admission (its own copies)
 }
 
 type slotKey struct {
@@ -589,6 +593,14 @@ func replyRecs(qtok string, m *dns.Msg, side byte) []recTok {
 			if id, ok := cutRecordID(rr); ok {
 				tk, mk = fmt.Sprintf("d%d", id/cutBase), id%cutBase
 			}
+			// the apex of the NSEC proof zone owns the SOA piece and the apex NSEC piece
+			if tk == "sz" {
+				if _, isNSEC := rr.(*dns.NSEC); isNSEC {
+					tk = "s0"
+				} else if sg, isSig := rr.(*dns.RRSIG); isSig && sg.TypeCovered == dns.TypeNSEC {
+					tk = "s0"
+				}
+			}
 			out = append(out, recTok{tok: tk, ns: true, ttl: int64(rr.Header().Ttl), mark: mk, typ: rr.Header().Rrtype})
 		}
 	}
@@ -789,7 +801,7 @@ func (h *histT) judgeReply(qtok string, recs []recTok, freshCalls map[string]int
 			holder = fmt.Sprintf("%s#cut%d", qtok, o.gen)
 		}
 	}
-	if qtok[0] == 'p' || qtok[0] == 'q' {
+	if qtok[0] == 'p' || qtok[0] == 'q' || qtok[0] == 'x' {
 		// per composition of the same stored pieces: a later admission may replace the zone's
 		// SOA entry (or the owner's NSEC entry) with a longer-lived one
 		holder = qtok + "#synth"
@@ -931,8 +943,24 @@ func recordlessTerminal(recs []recTok, nx bool) string {
 		if r.tok == last {
 			return ""
 		}
+		// an SOA in the authority section: the denial is on record (it is a piece the reply
+		// shows, judged by its own origin) — e.g. a cached alias entry whose stored reply
+		// lacks the CNAME of a middle hop; nothing record-less was consulted
+		if r.ns && r.typ == dns.TypeSOA {
+			return ""
+		}
 	}
 	return last
+}
+
+// heldBy: one of the cached pieces consumed so far stored a reply that carried piece t.
+func heldBy(holders []*orec, t string) bool {
+	for _, o := range holders {
+		if o.holds[t] {
+			return true
+		}
+	}
+	return false
 }
 
 // chainAfterOrSelf: non-empty iff tok is a piece of the composed reply.
@@ -1003,6 +1031,7 @@ func (h *histT) register(chs []change, script map[string]*specT, recs []recTok, 
 					holderSeen = true
 				}
 			}
+			var holders []*orec // the cached pieces consumed so far, in chain order
 			for _, t := range chainAfter(recs, c.k.tok) {
 				if !isNameTok(t) && t[0] != 's' && t[0] != 'd' && t[0] != 't' {
 					continue
@@ -1016,10 +1045,18 @@ func (h *histT) register(chs []change, script map[string]*specT, recs []recTok, 
 							continue
 						}
 						seen[r.mark] = true
+						if r.mark < 0 && heldBy(holders, t) {
+							// a record that names no admission (a bare CNAME), after a cached
+							// alias piece whose stored reply carried this piece: it is that
+							// entry's own copy, and that entry bounds the composition already —
+							// not whatever is stored under the owner's name today
+							continue
+						}
 						if o, _ := h.originOf(r); o != nil {
 							origins = append(origins, o)
 						}
 					}
+					holders = append(holders, origins...)
 				} else if !holderSeen {
 					seen := map[int]bool{}
 					for _, r := range recs {
@@ -1064,7 +1101,10 @@ func (h *histT) register(chs []change, script map[string]*specT, recs []recTok, 
 				}
 			}
 		}
-		o := &orec{gen: h.gens[c.k], admitV: h.V, life: life, lim: lim, lastShown: -1, mark: sp.mark}
+		o := &orec{gen: h.gens[c.k], admitV: h.V, life: life, lim: lim, lastShown: -1, mark: sp.mark, holds: map[string]bool{}}
+		for _, t := range chainAfter(recs, c.k.tok) {
+			o.holds[t] = true
+		}
 		o.negTTL = -1
 		if sp.kind == 'd' {
 			for _, it := range sp.ns {
@@ -1092,7 +1132,7 @@ func (h *histT) register(chs []change, script map[string]*specT, recs []recTok, 
 			if lim == "fresh-recordless-nxdomain" {
 				sig = "c/admit/alias-outlives-fresh-recordless-nxdomain"
 			}
-			verdict = fail(sig, "slot=%s stored=%ds permitted=%ds", c.k.tok, got, life)
+			verdict = fail(sig, "slot=%s stored=%ds permitted=%ds by=%s", c.k.tok, got, life, lim)
 		}
 	}
 	return verdict
@@ -1262,6 +1302,16 @@ func (h *histT) query(route, tok string, ecs, do bool, up string) vlib.Res {
 	// tags
 	tags := []string{"r=" + route}
 	nt := false
+	if strings.HasPrefix(head, "hit") {
+		switch tok[0] {
+		case 'x':
+			tags = append(tags, "synth=nxdomain")
+		case 'p':
+			tags = append(tags, "synth=nodata-nsec")
+		case 'q':
+			tags = append(tags, "synth=nodata-nsec3")
+		}
+	}
 	if synth64 && !basis64 {
 		tags = append(tags, "dns64=synth")
 		nt = true
@@ -1458,6 +1508,20 @@ func (h *histT) cutrec(k, itemS, leaseS string) vlib.Res {
 // proof for owner w<i>.pz.test. (SOA + RRSIG, NSEC + RRSIG) through
 // Store.RecordDenialProof.  Every admission replaces the zone's one SOA
 // entry; the NSEC entry of owner i is its own piece.
+func nsecNext(k string) string {
+	if k == "0" {
+		return "w1.pz.test."
+	}
+	return "w" + k + "z.pz.test."
+}
+
+func nsecBitmap(k string, mark int) []uint16 {
+	if k == "0" {
+		return []uint16{dns.TypeNS, dns.TypeSOA, dns.TypeAAAA, dns.TypeRRSIG, dns.TypeNSEC, uint16(1000 + mark)}
+	}
+	return []uint16{dns.TypeAAAA, dns.TypeRRSIG, dns.TypeNSEC, uint16(1000 + mark)}
+}
+
 type openLimiter struct{}
 
 func (openLimiter) TryAcquire() (func(), bool) { return func() {}, true }
@@ -1484,6 +1548,9 @@ func (h *histT) prec(zl byte, k, itemS, leaseS string) vlib.Res {
 	h.marks++
 	mark := 1 + h.marks%250
 	zone, owner, stok, ztok := "pz.test.", "w"+k+".pz.test.", "s"+k, "sz"
+	if zl == 'p' && k == "0" {
+		owner = zone // the apex NSEC: pz.test. -> w1.pz.test. (it covers the wildcard *.pz.test.)
+	}
 	if zl == 'q' {
 		zone, owner, stok, ztok = "qz.test.", "v"+k+".qz.test.", "t"+k, "tz"
 	}
@@ -1510,7 +1577,7 @@ func (h *histT) prec(zl byte, k, itemS, leaseS string) vlib.Res {
 				break
 			}
 			proof.Ns = append(proof.Ns, &dns.NSEC{Hdr: dns.RR_Header{Name: owner, Rrtype: dns.TypeNSEC, Class: dns.ClassINET, Ttl: it.ttl},
-				NextDomain: "w" + k + "z.pz.test.", TypeBitMap: []uint16{dns.TypeAAAA, dns.TypeRRSIG, dns.TypeNSEC, uint16(1000 + mark)}})
+				NextDomain: nsecNext(k), TypeBitMap: nsecBitmap(k, mark)})
 		case 'g':
 			o, cov := zone, dns.TypeSOA
 			if ng > 0 {
